@@ -31,6 +31,15 @@ class Hang(BaseException):
     pass
 
 
+def _spent():
+    try:
+        import bridge
+        return time.process_time() + bridge.WAITED[0]
+    except Exception:  # noqa
+        return time.process_time()
+
+
+HANGS = [0]      # budgets exhausted so far in this run
 _budgets = []   # stack of [seconds, cpu0, wall0] of the active with_budget calls
 
 
@@ -40,18 +49,23 @@ def _alarm(signum, frame):
     # merely waiting (for the model process, for the scheduler) is given up to 30 x `seconds` of wall time.
     if _budgets:
         seconds, cpu0, wall0 = _budgets[-1]
-        cpu = time.process_time() - cpu0
+        # time spent waiting for the model process (the reference target computing an answer) is work done on behalf of
+        # the call: it counts like CPU time of this process, or a loop of round trips would escape the budget
+        cpu = _spent() - cpu0
         wall = time.monotonic() - wall0
         if cpu < seconds * 0.9 and wall < seconds * 30:
             signal.setitimer(signal.ITIMER_REAL, max(0.2, seconds - cpu))
             return
+    HANGS[0] += 1
     raise Hang()
 
 
 def with_budget(seconds, fn, *a, **kw):
     """run fn under a CPU budget (wall budget 30 x); Hang (a BaseException) is raised inside fn on expiry"""
+    if HANGS[0] >= 2:
+        seconds = min(seconds, 20)      # two calls already ran out of their budget in this run: do not wait that long again
     old = signal.signal(signal.SIGALRM, _alarm)
-    _budgets.append([seconds, time.process_time(), time.monotonic()])
+    _budgets.append([seconds, _spent(), time.monotonic()])
     signal.setitimer(signal.ITIMER_REAL, seconds)
     try:
         return fn(*a, **kw)
